@@ -374,20 +374,32 @@ func vPlain(name string, n int) string {
 	return s
 }
 
-var vRTFields = []string{"pid", "uid", "gid", "auid", "exit", "msgtype", "arch", "path", "exe", "key", "perm", "filetype", "a0", "success", "inode", "subj_user", "obj_uid", "dir"}
+var vRTFields = []string{"pid", "uid", "gid", "auid", "exit", "msgtype", "arch", "path", "exe", "key", "perm", "filetype", "a0", "success", "inode", "subj_user", "obj_uid", "dir",
+	// appended later (indices above are referenced from checks.json)
+	"euid", "suid", "fsuid", "egid", "sgid", "fsgid", "obj_gid", "ppid", "devmajor", "devminor", "a1", "a2", "a3", "saddr_fam", "pers",
+	"obj_user", "obj_role", "obj_type", "obj_lev_low", "obj_lev_high", "subj_role", "subj_type", "subj_sen", "subj_clr"}
+
+// vComparePairs: the 25 AUDIT_COMPARE_* pairs of the UAPI header, by auditctl field names.
+var vComparePairs = [][2]string{
+	{"auid", "euid"}, {"auid", "fsuid"}, {"auid", "obj_uid"}, {"auid", "suid"}, {"egid", "fsgid"}, {"egid", "obj_gid"}, {"egid", "sgid"},
+	{"euid", "fsuid"}, {"euid", "obj_uid"}, {"euid", "suid"}, {"fsgid", "obj_gid"}, {"fsuid", "obj_uid"}, {"gid", "egid"}, {"gid", "fsgid"},
+	{"gid", "obj_gid"}, {"gid", "sgid"}, {"sgid", "fsgid"}, {"sgid", "obj_gid"}, {"suid", "fsuid"}, {"suid", "obj_uid"}, {"uid", "auid"},
+	{"uid", "euid"}, {"uid", "fsuid"}, {"uid", "obj_uid"}, {"uid", "suid"},
+}
 
 func vRTFilter(name string, idx int, ops []string) rule.FilterSpec {
 	op := ops[vChoose("op", len(ops))]
 	tag := "v" + string([]byte{'0' + byte(idx)})
 	var rhs string
 	switch name {
-	case "uid", "auid", "obj_uid", "gid":
+	case "uid", "auid", "obj_uid", "gid", "euid", "suid", "fsuid", "egid", "sgid", "fsgid", "obj_gid":
+		isGID := name == "gid" || name == "egid" || name == "sgid" || name == "fsgid" || name == "obj_gid"
 		switch vChoose(tag+"form", 3) {
 		case 0:
 			rhs = vDigitsNZ(tag, vParam("digits", 10))
 			vAssume(vDec(rhs) < 1<<32)
 		case 1:
-			if name == "gid" {
+			if isGID {
 				rhs = "4294967295"
 			} else {
 				rhs = "-1"
@@ -414,7 +426,7 @@ func vRTFilter(name string, idx int, ops []string) rule.FilterSpec {
 		}
 	case "arch":
 		rhs = []string{"b64", "b32", "x86_64", "i386", "aarch64", "ppc64le"}[vChoose(tag+"arch", 6)]
-	case "path", "exe", "key", "subj_user", "dir":
+	case "path", "exe", "key", "subj_user", "dir", "obj_user", "obj_role", "obj_type", "obj_lev_low", "obj_lev_high", "subj_role", "subj_type", "subj_sen", "subj_clr":
 		if name == "dir" {
 			rhs = "/etc"
 		} else if name == "path" && vParam("realpath", 0) != 0 {
@@ -431,6 +443,8 @@ func vRTFilter(name string, idx int, ops []string) rule.FilterSpec {
 		}
 	case "filetype":
 		rhs = []string{"file", "dir", "fifo", "socket"}[vChoose(tag+"ft", 4)]
+	case "saddr_fam":
+		rhs = []string{"2", "10", "0x2", "1"}[vChoose(tag+"fam", 4)]
 	default:
 		rhs = vDigitsNZ(tag, vParam("digits", 10))
 		vAssume(vDec(rhs) < 1<<32)
@@ -459,6 +473,17 @@ func VH_RoundTrip() {
 		sr.Filters = append(sr.Filters, vRTFilter(f1, 0, ops))
 		if f2 := vParam("second", -1); f2 >= 0 {
 			sr.Filters = append(sr.Filters, vRTFilter(vRTFields[f2], 1, eqOps[:1]))
+		}
+		if vParam("compare", 0) != 0 {
+			// -C comparisons, alone or after the value filter
+			if vParam("compare", 0) == 2 {
+				sr.Filters = sr.Filters[:0]
+			}
+			pr := vComparePairs[vChoose("pair", len(vComparePairs))]
+			if vChoose("swap", 2) == 1 {
+				pr[0], pr[1] = pr[1], pr[0]
+			}
+			sr.Filters = append(sr.Filters, rule.FilterSpec{Type: rule.InterFieldFilterType, LHS: pr[0], Comparator: eqOps[vChoose("cop", 2)], RHS: pr[1]})
 		}
 		switch vChoose("syscalls", vParam("sysforms", 3)) {
 		case 1:
